@@ -28,7 +28,7 @@ ANCHORS = [
     ("tangelo/algorithms/variational/vqe_solver.py", "operator_expectation", "temporary swap of the target operator"),
     ("tangelo/algorithms/variational/vqe_solver.py", "__init__", "reference-state override handling"),
 ]
-REQUIRED = {"energy_is_expectation": 60, "energy_is_variational": 60, "symmetry_expectation": 100, "hamiltonian_restored": 100, "deflation_overlap": 10, "hf_energy_at_zero": 3}
+REQUIRED = {"solver_hamiltonian_is_molecular_plus_penalty": 30, "energy_is_expectation": 60, "energy_is_variational": 60, "symmetry_expectation": 100, "hamiltonian_restored": 100, "deflation_overlap": 10, "hf_energy_at_zero": 3}
 BUDGET = {"quick": 300, "thorough": 3000}
 TOL = 1e-7
 
@@ -112,10 +112,12 @@ def run_mol(case, ctx):
         opts["ansatz_options"] = {"max_ilc_gens": 3}
     if kind == "VSQS":
         opts["ansatz_options"] = {"intervals": 3, "time": 0.6}
-    variant = pr.choice(["plain", "plain", "penalty", "deflation", "ref_vector", "ref_circuit", "projective"])
+    variant = pr.choice(["plain", "penalty", "penalty", "deflation", "ref_vector", "ref_circuit", "projective"])
     nq = get_qubit_number(MAP, mol.n_active_sos)
     if variant == "penalty" and kind not in ("UCC1", "UCC3"):
         opts["penalty_terms"] = {"N": [pr.choice([0.5, 2.0]), mol.n_active_electrons], "Sz": [1.0, mol.active_spin / 2]}
+        if pr.random() < 0.5:
+            opts["penalty_terms"]["S^2"] = [0.7, (mol.active_spin / 2) * (mol.active_spin / 2 + 1)]
     n_defl = 0
     if variant == "deflation":
         n_defl = pr.randint(1, 2)
@@ -155,6 +157,44 @@ def run_mol(case, ctx):
         Hm = None
         lam = None
         thetas = []
+        # the Hamiltonian the solver was given: molecular Hamiltonian (+ requested penalties), rebuilt independently in Fock space
+        if kind != "pUCCD" and mol.n_active_sos <= 8:
+            M = mol.n_active_sos
+            Hf = fock.fermion_terms_matrix({tuple(t): c for t, c in mol.fermionic_hamiltonian.terms.items()}, M)
+            if "penalty_terms" in opts:
+                Nm, Szm, S2m = fock.number_matrices(M, up_then_down=False)
+                I = np.eye(2 ** M)
+                pt = opts["penalty_terms"]
+                for key, mat in (("N", Nm), ("Sz", Szm), ("S^2", S2m)):
+                    if key in pt and pt[key][0] > 0:
+                        Hf = Hf + pt[key][0] * (mat - pt[key][1] * I) @ (mat - pt[key][1] * I)
+            nq_h = get_qubit_number(MAP, M)
+            Hq = dense_h(H0, nq_h)
+            if MAP == "JW":
+                perm = [(p_ // 2 + (M // 2) * (p_ % 2)) if solver.up_then_down else p_ for p_ in range(M)]
+                # re-label the Fock matrix: interleaved mode p sits on qubit perm[p]
+                idx = np.zeros(2 ** M, dtype=int)
+                for b in range(2 ** M):
+                    occ = fock.occupations(b, M)
+                    new_occ = [0] * M
+                    for p_ in range(M):
+                        new_occ[perm[p_]] = occ[p_]
+                    idx[b] = fock.index_of(new_occ)
+                # JW phases: the sign convention of a determinant depends on the mode order, so compare spectra when re-ordered
+                if solver.up_then_down:
+                    ok = np.max(np.abs(np.linalg.eigvalsh(Hq) - np.linalg.eigvalsh(Hf))) < 1e-7
+                else:
+                    ok = refsim.dist(Hq, Hf) < 1e-7
+            elif MAP in ("BK", "JKMN"):
+                ok = np.max(np.abs(np.linalg.eigvalsh(Hq) - np.linalg.eigvalsh(Hf))) < 1e-7
+            else:
+                na_, nb_ = mol.n_active_ab_electrons
+                ix = [i_ for i_ in range(2 ** M) if sum(fock.occupations(i_, M)) % 2 == (na_ + nb_) % 2 and sum(fock.occupations(i_, M)[0::2]) % 2 == na_ % 2]
+                blk = Hf[np.ix_(ix, ix)]
+                e1, e2 = np.linalg.eigvalsh(blk), np.linalg.eigvalsh(Hq)
+                ok = len(e1) == len(e2) and np.max(np.abs(e1 - e2)) < 1e-7
+            ctx.check("solver_hamiltonian_is_molecular_plus_penalty", ok,
+                      "the solver's qubit Hamiltonian is not (equivalent to) the molecular Hamiltonian plus the requested penalty terms", dict(base))
         for r in range(2 if ctx.tier == "quick" else 4):
             theta = ansatzlib.rand_params(pr, nvp, pr.choice(["uniform", "uniform", "big", "some_zero", "zeros"]))
             thetas.append(theta)
@@ -193,7 +233,15 @@ def run_mol(case, ctx):
         e_before = solver.energy_estimation(list(theta))
         psi, n, circ = solver_state(solver)
         if kind != "pUCCD" and not (kind in ("UCC1", "UCC3")):
-            ops = {"N": number_operator(mol.n_active_mos), "Sz": spinz_operator(mol.n_active_mos), "S^2": spin2_operator(mol.n_active_mos)}
+            # the oracle's N, Sz, S^2 are written from their definitions (vlib.fock.symmetry_operator_terms), not taken from the library
+            from openfermion import FermionOperator as OFF
+            tN, tSz, tS2 = fock.symmetry_operator_terms(mol.n_active_mos)
+            ops = {}
+            for name, td in (("N", tN), ("Sz", tSz), ("S^2", tS2)):
+                o = OFF()
+                for t, c in td.items():
+                    o += OFF(t, c)
+                ops[name] = o
             for name, fop in ops.items():
                 q = fermion_to_qubit_mapping(fop, MAP, n_spinorbitals=mol.n_active_sos, n_electrons=mol.n_active_electrons,
                                              up_then_down=solver.up_then_down, spin=mol.active_spin)
